@@ -46,7 +46,7 @@ IsRefArg(W, e) == e[1] \in {"ref", "rng"} \/ (e[1] = "name")
 \* first error of a sequence of scalars, or a non-error marker
 RECURSIVE FirstErr(_)
 FirstErr(s) == IF s = <<>> THEN [k |-> "none"]
-               ELSE IF Head(s).k = "e" THEN Head(s) ELSE FirstErr(Tail(s))
+               ELSE IF Head(s).k \in {"e", "any"} THEN Head(s) ELSE FirstErr(Tail(s))
 
 RECURSIVE SumNums(_)
 SumNums(s) == IF s = <<>> THEN Zero
@@ -100,7 +100,7 @@ Ev(W, v, e) ==
                     (LET s == AllScalars(W, v, args)
                          er == FirstErr(s)
                      IN IF f = "COUNT" THEN IntV(CountNums(s))
-                        ELSE IF er.k = "e" THEN er
+                        ELSE IF er.k \in {"e", "any"} THEN er
                         ELSE IF f = "SUM" THEN SumNums(s)
                         ELSE LET m == MaxNums(s, [k |-> "none"]) IN IF m.k = "n" THEN m ELSE Zero)
                [] f = "IF" ->
